@@ -104,7 +104,7 @@ func hashMain(args []string) error {
 	emit := func(i int, line []byte) {
 		var m map[string]any
 		if json.Unmarshal(line, &m) == nil {
-			if m["synthetic"] == true {
+			if lk, ok := m["leak"].(float64); m["synthetic"] == true || (ok && lk > 0) {
 				nbad++
 			}
 			if _, ok := m["id"]; !ok {
@@ -412,12 +412,16 @@ func (h *hashChild) handle(line []byte) any {
 		counts[o]++
 		// goroutine accounting with a settle loop (the producer / closer may still be finishing)
 		after := runtime.NumGoroutine()
-		for t := 0; after > before && t < 200; t++ {
+		for t := 0; after > before && t < 120; t++ {
 			time.Sleep(time.Duration(1+t/10) * time.Millisecond)
 			after = runtime.NumGoroutine()
 		}
 		if after-before > rec.Leak {
 			rec.Leak = after - before
+		}
+		if rec.Leak > 0 {
+			// goroutines were left behind: no point repeating (each repetition would wait for the settle loop again)
+			rep = s.Reps
 		}
 		if s.Trace && rep == 0 {
 			// give the helper goroutines a moment to log their last events
